@@ -642,7 +642,8 @@ impl TextResource {
     /// Returns a sorted double-ended iterator over all textselections in this resource.
     /// For unsorted (slightly more performant), use [`TextResource::textselections_unsorted()`] instead.
     pub fn iter<'a>(&'a self) -> TextSelectionIter<'a> {
-        self.range(0, self.textlen())
+        //the position after the last character is a valid begin (of a zero-width selection) and a valid end
+        self.range(0, self.textlen() + 1)
     }
 
     /// Returns a sorted iterator over all absolute positions (begin aligned cursors) that are in use.
